@@ -120,7 +120,10 @@ def solve_scipy(
     obj_fn = cache["obj_fn"]
     grad_fn = cache["grad_fn"]
     scipy_constraints = cache["scipy_constraints"]
-    bounds = cache["bounds"]
+    # Bounds live on the Variable objects and may be edited between solves (that does
+    # not invalidate the cache), so they are read afresh on every solve.
+    bounds = _variable_bounds(variables)
+    cache["bounds"] = bounds
 
     def objective(x: np.ndarray) -> float:
         return float(obj_fn(x))
@@ -340,6 +343,16 @@ def _compute_initial_point(
     return x0
 
 
+def _variable_bounds(variables: list) -> list[tuple[float, float]]:
+    """Current (lb, ub) of each variable, with infinities for missing bounds."""
+    bounds = []
+    for v in variables:
+        lb = v.lb if v.lb is not None else -np.inf
+        ub = v.ub if v.ub is not None else np.inf
+        bounds.append((lb, ub))
+    return bounds
+
+
 def _build_solver_cache(problem: Problem, variables: list) -> dict[str, Any]:
     """Build and cache compiled callables for the solver.
 
@@ -372,12 +385,7 @@ def _build_solver_cache(problem: Problem, variables: list) -> dict[str, Any]:
     cache["grad_fn"] = compile_jacobian([obj_expr], variables)
 
     # Build bounds
-    bounds = []
-    for v in variables:
-        lb = v.lb if v.lb is not None else -np.inf
-        ub = v.ub if v.ub is not None else np.inf
-        bounds.append((lb, ub))
-    cache["bounds"] = bounds
+    cache["bounds"] = _variable_bounds(variables)
 
     # Build constraints for SciPy
     scipy_constraints = []
